@@ -89,9 +89,9 @@ TEXT = {
         'design_ref': 'DESIGN.md §4 C18',
     },
     'C02': {
-        'text': 'Partial: deterministic rejection guards. Kani proves on the real Prio3 aggregator code, for every Type meeting the Type contract, the checks the soundness argument relies on (share count and length, every proof decided, seed recomputed from all parts, full-seed comparison, no output share on mismatch). Verus proves that the constructors of SumVec/MultihotCountVec/L1BoundSum provision ceil(encoded length / chunk_length) range-check gadget calls, i.e. no chunk of the encoded input (incl. the digits of a claimed norm or weight) escapes the bit check.',
+        'text': 'Partial: deterministic rejection guards. Verus proves on the extracted Prio3::verifier_shares_to_message, for ANY number of shares, proofs and verifier length over an abstract FLP type, that a message is produced exactly when the share count and every share length are right and every proof of the summed verifier is decided true, with the seed bound to all joint-randomness parts in order. Kani proves on the real Prio3 aggregator code, for every Type meeting the Type contract, the checks the soundness argument relies on (share count and length, every proof decided, seed recomputed from all parts, full-seed comparison, no output share on mismatch). Verus proves that the constructors of SumVec/MultihotCountVec/L1BoundSum provision ceil(encoded length / chunk_length) range-check gadget calls, i.e. no chunk of the encoded input (incl. the digits of a claimed norm or weight) escapes the bit check.',
         'note': 'The soundness error of the proof system is probabilistic and not decided; validity-circuit algebra is not covered.',
-        'technique': 'guard contracts on real generic code over a nondeterministic Type implementation (Kani) + constructor postconditions on extracted real code (Verus)',
+        'technique': 'guard contracts on real generic code over a nondeterministic Type implementation (Kani) + function contracts with loop invariants on the extracted combiner and constructors (Verus)',
         'design_ref': 'DESIGN.md §4 C02',
     },
     'C19': {
